@@ -87,8 +87,11 @@ func envRecvImpl(comp bool, max int, tail string, flat []byte, cuts []int, withD
 	if comp {
 		nd, nc = newRLEDecompressor, newRLECompressor
 	}
-	return connect.VerifEnvelopeRecvAll(rd, rawCodec{}, nd, nc, max, len(flat)/5+2)
+	return connect.VerifEnvelopeRecvAll(rd, envCodec, nd, nc, max, len(flat)/5+2)
 }
+
+// envCodec is the codec env.recv operations run with (strict=1 swaps in strictCodec).
+var envCodec connect.Codec = rawCodec{}
 
 // envDrainImpl: drainUpTo (the library's bounded drain, F43) on a scripted transport.
 func envDrainImpl(limit int, tail string, flat []byte, cuts []int, withData bool) string {
@@ -144,6 +147,10 @@ func envRecvOp(c *Ctx, op string) string {
 	a := kvArgs(strings.Fields(op))
 	max, _ := strconv.Atoi(a["max"])
 	ans := safely(func() string {
+		if a["strict"] == "1" {
+			envCodec = strictCodec{}
+			defer func() { envCodec = rawCodec{} }()
+		}
 		return showYields(envRecvImpl(a["comp"] == "1", max, a["tail"], unhx(a["flat"]), parseCuts(a["seg"]), a["wd"] == "1"))
 	})
 	if strings.HasPrefix(ans, "PANIC") {
